@@ -502,7 +502,7 @@ pub fn run(tier: Tier) -> i32 {
         }
     }
     rep.guard("strings that compile are searched", st.nontrivial > 1000);
-    rep.rule = "(a) every character string up to the bound over the extended alphabet, (b) every token sequence up to the bound over T22 + extreme numbers (full alphabet for two tokens, a bracket/number-centred alphabet below) and every slice/index built from pairs of extreme numbers -- each compiled, cloned, searched against 8 documents and dropped under catch_unwind, a hang watchdog and a fatal-signal handler, with integer overflow checks on; (c) 20 nesting families x the depth ladder, one fresh process each on a thread with an 8 MiB stack (compile, clone, search, Debug-format, drop). non-trivial = the input compiled and was searched / the family member completed".into();
+    rep.rule = "(a) every character string up to the bound over the extended alphabet, (b) every token sequence up to the bound over T22 + extreme numbers (full alphabet for two tokens, a bracket/number-centred alphabet below) and every slice/index built from pairs of extreme numbers -- each compiled, cloned, searched against 8 documents and dropped under catch_unwind, a hang watchdog and a fatal-signal handler, with integer overflow checks on; (c) 20 nesting families x the depth ladder, one fresh process each on a thread with an 8 MiB stack (compile, clone, search, Debug-format, drop). non-trivial = the input compiled and was searched / the family member completed Mixed-representation sorts: every array of 21..22 (thorough ..33) numbers over four neighbouring values above 2^53 (integer and float spellings) deviating from the constant array in <= 3 positions, through sort and sort_by.".into();
     rep.bounds = json!({"char_len": k, "token_len": l, "depth_ladder": depths, "families": fam_table});
     rep.assumptions = vec!["every other check also runs each of its cases under catch_unwind with overflow checks; a panic there is reported by that check".into()];
     rep.stats = st;
